@@ -1,3 +1,4 @@
+mod fnlevel;
 mod gen;
 mod hist;
 mod jsonx;
@@ -22,6 +23,7 @@ fn main() {
     match args.get(1).map(|s| s.as_str()) {
         Some("hist") => cmd_hist(&args),
         Some("gen") => cmd_gen(&args),
+        Some("fn") => cmd_fn(&args),
         _ => {
             eprintln!("usage: mvh hist|gen ...");
             std::process::exit(2);
@@ -39,6 +41,53 @@ fn denull(v: &mut Value) {
         Value::Object(o) => o.values_mut().for_each(denull),
         _ => {}
     }
+}
+
+fn write_revs(path: &str, tables: &obs::Tables) {
+    let mut f = std::io::BufWriter::new(std::fs::File::create(path).unwrap());
+    writeln!(f, "{}", json!({"rev": "%00none", "idx": 0, "dig": "", "kind": "x", "tail": "", "tailof": "", "bytes": [], "wf": false})).unwrap();
+    for v in tables.revs.values() {
+        writeln!(f, "{}", v).unwrap();
+    }
+    f.flush().unwrap();
+}
+
+/// mvh fn <merge|diff|revision|revtree> --out DIR [--size quick|thorough] [--seed S] [--shards N]
+fn cmd_fn(args: &[String]) {
+    let which = args.get(2).cloned().unwrap_or_default();
+    let out = arg(args, "--out").expect("--out");
+    let thorough = arg(args, "--size").map(|s| s == "thorough").unwrap_or(false);
+    let seed: u64 = arg(args, "--seed").and_then(|s| s.parse().ok()).unwrap_or(1);
+    let shards: usize = arg(args, "--shards").and_then(|s| s.parse().ok()).unwrap_or(8);
+    std::fs::create_dir_all(&out).unwrap();
+    let empty = obs::Tables::default();
+    let n = match which.as_str() {
+        "merge" => {
+            let n = if thorough { fnlevel::fn_merge(&out, 5, 5, shards) } else { fnlevel::fn_merge(&out, 4, 4, shards) };
+            write_revs(&format!("{}/revs.ndjson", out), &empty);
+            n
+        }
+        "diff" => {
+            let n = if thorough { fnlevel::fn_diff(&out, 3, 4, shards, 7) } else { fnlevel::fn_diff(&out, 3, 3, shards, 5) };
+            write_revs(&format!("{}/revs.ndjson", out), &empty);
+            n
+        }
+        "revision" => {
+            let (n, t) = fnlevel::fn_revision(&out, shards, seed, if thorough { 400_000 } else { 40_000 });
+            write_revs(&format!("{}/revs.ndjson", out), &t);
+            n
+        }
+        "revtree" => {
+            let (n, t) = fnlevel::fn_revtree(&out, shards, seed, if thorough { 20_000 } else { 1_500 }, if thorough { 6 } else { 5 });
+            write_revs(&format!("{}/revs.ndjson", out), &t);
+            n
+        }
+        _ => {
+            eprintln!("unknown fn driver");
+            std::process::exit(2);
+        }
+    };
+    println!("{}", json!({"driver": which, "events": n}));
 }
 
 fn cmd_gen(args: &[String]) {
